@@ -688,7 +688,17 @@ pub struct History {
     pub joins: Vec<(usize, bool)>,
 }
 
+thread_local! {
+    /// How a message is related to the frames its sender decoded since its previous message:
+    /// false (default) = it reports the most recent one, the earlier ones were discarded (a
+    /// warm-up frame, say); true = it reports all of them, in order (results sent in batches).
+    /// The two readings coincide whenever every frame is followed by a message of its own, which
+    /// is the case on the unchanged tree; the oracles try the second only when the first fails.
+    pub static BATCH_READING: std::cell::Cell<bool> = const { std::cell::Cell::new(false) };
+}
+
 pub fn extract_history(cfg: &BerCfg, events: &[Event], report_chan: Option<usize>) -> History {
+    let batch_reading = BATCH_READING.with(|b| b.get());
     use std::collections::{BTreeMap, BTreeSet};
     let mut anomalies = Vec::new();
     // pass 1: channel roles by traffic. A results channel is one the root receives from (by
@@ -725,10 +735,11 @@ pub fn extract_history(cfg: &BerCfg, events: &[Event], report_chan: Option<usize
     // worker's error report, or a control message of another design); a frame that is decoded
     // but never followed by a send of its task belongs to no message.
     let mut frame_count: BTreeMap<usize, u64> = BTreeMap::new();
-    let mut pending_frame: BTreeMap<usize, u64> = BTreeMap::new();
+    // (all of them, in decoding order: a design may report several frames in one message)
+    let mut pending_frame: BTreeMap<usize, Vec<u64>> = BTreeMap::new();
     let mut discarded_frames = 0u64;
     let mut frame_of: BTreeMap<(usize, u64), (usize, (u64, bool, u64))> = BTreeMap::new(); // (task,k) -> (tag, content)
-    let mut send_index: BTreeMap<(usize, usize, u64), u64> = BTreeMap::new(); // (chan, task, seq) -> k
+    let mut send_index: BTreeMap<(usize, usize, u64), Vec<u64>> = BTreeMap::new(); // (chan, task, seq) -> frames
     let mut sent_on: BTreeMap<usize, Vec<(usize, u64)>> = BTreeMap::new(); // chan -> (task, seq) in order
     let mut recv_on: BTreeMap<usize, Vec<(usize, u64)>> = BTreeMap::new();
     let mut err_seen_on: BTreeMap<usize, bool> = BTreeMap::new();
@@ -756,12 +767,16 @@ pub fn extract_history(cfg: &BerCfg, events: &[Event], report_chan: Option<usize
             Ev::Send { chan, seq } => {
                 if ev.task != 0 && results_chans.contains(chan) {
                     worker_tasks.insert(ev.task);
-                    // u64::MAX: no unreported frame, i.e. a message that carries no frame
-                    let k = pending_frame.remove(&ev.task).unwrap_or(u64::MAX);
-                    if k != u64::MAX {
-                        transported.insert((ev.task, k));
+                    // empty: no unreported frame, i.e. a message that carries no frame
+                    let mut ks = pending_frame.remove(&ev.task).unwrap_or_default();
+                    if !batch_reading && ks.len() > 1 {
+                        discarded_frames += ks.len() as u64 - 1;
+                        ks = vec![*ks.last().unwrap()];
                     }
-                    send_index.insert((*chan, ev.task, *seq), k);
+                    for k in &ks {
+                        transported.insert((ev.task, *k));
+                    }
+                    send_index.insert((*chan, ev.task, *seq), ks);
                     sent_on.entry(*chan).or_default().push((ev.task, *seq));
                     mixin(1, no(ev.task));
                 } else if ev.task == 0 {
@@ -780,10 +795,14 @@ pub fn extract_history(cfg: &BerCfg, events: &[Event], report_chan: Option<usize
             // the collector may take results by recv() or by polling: both are receptions
             Ev::Recv { chan, from, seq } | Ev::TryRecvOk { chan, from, seq } if ev.task == 0 && results_chans.contains(chan) => {
                 recv_on.entry(*chan).or_default().push((*from, *seq));
-                if let Some(&k) = send_index.get(&(*chan, *from, *seq)) {
+                if let Some(ks) = send_index.get(&(*chan, *from, *seq)) {
                     mixin(4, no(*from));
-                    match frame_of.get(&(*from, k)) {
-                        Some(&(tag, content)) => {
+                    if ks.is_empty() {
+                        control_msgs += 1;
+                        err_seen_on.insert(*chan, true);
+                    }
+                    for &k in ks {
+                        if let Some(&(tag, content)) = frame_of.get(&(*from, k)) {
                             if *err_seen_on.get(chan).unwrap_or(&false) {
                                 recv_after_err = true;
                             }
@@ -791,10 +810,6 @@ pub fn extract_history(cfg: &BerCfg, events: &[Event], report_chan: Option<usize
                             p.recvs.push((*from, k));
                             p.frames.insert((*from, k), content);
                             received.insert((*from, k));
-                        }
-                        None => {
-                            control_msgs += 1;
-                            err_seen_on.insert(*chan, true);
                         }
                     }
                 }
@@ -827,9 +842,7 @@ pub fn extract_history(cfg: &BerCfg, events: &[Event], report_chan: Option<usize
                     let k = frame_count.entry(ev.task).or_insert(0);
                     frame_of.insert((ev.task, *k), (e, fr));
                     points[e.min(npoints - 1)].decoded.entry(ev.task).or_default().push(fr);
-                    if pending_frame.insert(ev.task, *k).is_some() {
-                        discarded_frames += 1;
-                    }
+                    pending_frame.entry(ev.task).or_default().push(*k);
                     *k += 1;
                 }
                 "chain-fail" => {
@@ -864,6 +877,8 @@ pub fn extract_history(cfg: &BerCfg, events: &[Event], report_chan: Option<usize
             p.untransported += 1;
         }
     }
+    // frames that no message ever claimed
+    discarded_frames += pending_frame.values().map(|v| v.len() as u64).sum::<u64>();
     History { points, anomalies, transport, recv_after_err, transport_sig: sig, discarded_frames, control_msgs, worker_tasks, joins }
 }
 
@@ -1146,6 +1161,24 @@ fn tier2_point(cfg: &BerCfg, e: usize, p: &PointHistory, s: Option<&Statistics>,
 }
 
 pub fn oracle_c13(cfg: &BerCfg, obs: &BerObs) -> (Vec<Violation>, OracleStats) {
+    let (v, st) = oracle_c13_reading(cfg, obs);
+    if v.is_empty() || !st.probes.0.keys().any(|k| k.starts_with("frames decoded but never reported")) {
+        return (v, st);
+    }
+    // some frames were not followed by a message of their own: perhaps they were not discarded
+    // but reported together with the next one
+    BATCH_READING.with(|b| b.set(true));
+    let (v2, mut st2) = oracle_c13_reading(cfg, obs);
+    BATCH_READING.with(|b| b.set(false));
+    if v2.is_empty() {
+        st2.probes.inc("messages read as batches of frames (the one-frame-per-message reading failed)");
+        (v2, st2)
+    } else {
+        (v, st)
+    }
+}
+
+fn oracle_c13_reading(cfg: &BerCfg, obs: &BerObs) -> (Vec<Violation>, OracleStats) {
     let mut v: Vec<Violation> = Vec::new();
     let mut st = OracleStats { probes: Counters::default(), frames_total: 0, chain_skipped: false };
     let out = &obs.outcome;
